@@ -210,7 +210,7 @@ fn recover_image<K: HKey>(img: &Path, cfg: &Cfg, nested: bool, cont: &[Value], s
     let mut contv = vec![];
     for (i, op) in cont.iter().enumerate() {
         let r = st.exec(op, i);
-        let o = st.observe();
+        let o = st.observe_opt(true);
         contv.push(json!({"op": op, "res": r, "obs": o}));
     }
     st.close();
@@ -221,7 +221,7 @@ fn recover_image<K: HKey>(img: &Path, cfg: &Cfg, nested: bool, cont: &[Value], s
             let d2 = alpha::alpha(&p, &names, NK);
             let mut s2 = Store::<K>::new(&p, cfg);
             let r2 = s2.open();
-            let o2 = s2.observe();
+            let o2 = s2.observe_opt(true);
             s2.close();
             nestedv.push(json!({"k": k, "call": kind, "path": pc, "disk": d2, "res": r2, "obs": o2}));
         }
